@@ -55,6 +55,14 @@ Definition should_decode (disable : bool) (sel : selector) (resp_ce ct : bytes) 
 Definition should_decode_pinned (disable : bool) (sel : selector) (resp_ae ct : bytes) : bool :=
   negb disable && is_empty resp_ae && selected sel ct.
 
+(* The decompression stage in front of the charset stage (transport.go readLoop, internal/http2
+   handleResponse, internal/http3 ReadResponse): whenever it decodes the body it deletes Content-Encoding
+   (all three stacks, both branches: transparent gzip and AutoDecompression - pinned by gosync), otherwise
+   the header stays.  [resp_ce] of [should_decode] is this value. *)
+Inductive proto := PH1 | PH2 | PH3.
+Definition ce_at_charset_stage (p : proto) (decompressed : bool) (ce : bytes) : bytes :=
+  if decompressed then [] else ce.
+
 Inductive ct_parse := PErr | PNoCharset | PCharset (v : bytes).
 
 (* result of one Read: nil, io.EOF, or any other error (a network failure in mid-body) *)
@@ -156,6 +164,12 @@ Section Machine.
 
   Definition decide (disable : bool) (sel : selector) (resp_ce ct : bytes) : install :=
     if should_decode disable sel resp_ce ct then charset_from_content_type ct else IRaw.
+
+  (* the response status and a Location header play no part in it: the page that comes with a redirect
+     is a body like any other (it reaches the caller whenever the redirect is not followed) *)
+  Definition decide_resp (status : N) (location : bytes)
+             (disable : bool) (sel : selector) (resp_ce ct : bytes) : install :=
+    decide disable sel resp_ce ct.
 
   Definition decide_pinned (disable : bool) (sel : selector) (resp_ae ct : bytes) : install :=
     if should_decode_pinned disable sel resp_ae ct then charset_from_content_type ct else IRaw.
@@ -333,6 +347,7 @@ Arguments ISniff {enc}.
 Arguments charset_from_content_type {enc}.
 Arguments decide {enc}.
 Arguments decide_pinned {enc}.
+Arguments decide_resp {enc}.
 Arguments peek_read {enc}.
 Arguments a_read {enc}.
 Arguments open_body {enc}.
